@@ -122,7 +122,7 @@ def pair_rules(ctx, facts, rep, rule="C08-PAIR", side="both"):
             for e in exprs:
                 inner = e[1] if e[0] == "cast" else e
                 good = good and inner[0] == "call" and re.search(r"::min$", inner[1]) is not None and \
-                    any(a[0] == "named" and a[2] == thr for a in inner[2])
+                    any(a[0] == "const" and a[2] == thr for a in inner[2])
             ok &= rep.check(good, rule, "central-clamp:%s" % fld, where(wh, wh.span), "32-bit slot = min(%s, 0xFFFFFFFF)" % fld,
                             "32-bit %s slot is written as %s, not as the sentinel clamp min(v, 0xFFFFFFFF)" % (fld, [show(e) for e in exprs]))
     if side in ("both", "read"):
@@ -229,7 +229,7 @@ def eocd_rules(ctx, facts, rep, rule="C08-EOCD"):
     for fld, thr in (("number_of_files", ethr), ("number_of_files_on_this_disk", ethr), ("central_directory_size", bthr), ("central_directory_offset", bthr)):
         v = norm(ex.operand(flds[fld], (bi, si)))
         inner = v[1] if v[0] == "cast" else v
-        good = inner[0] == "call" and re.search(r"::min$", inner[1]) is not None and any(a[0] == "named" and a[2] == thr for a in inner[2])
+        good = inner[0] == "call" and re.search(r"::min$", inner[1]) is not None and any(a[0] == "const" and a[2] == thr for a in inner[2])
         ok &= rep.check(good, rule, "eocd-clamp:%s" % fld, where(fz, s["span"]), "%s = min(value, %#x)" % (fld, thr),
                         "EOCD field %s is written as %s instead of the sentinel clamp" % (fld, show(v)))
     # ZIP64 record contents
